@@ -71,3 +71,32 @@ Theorem C06_emitted_proof_verifies : forall (K : Fld), FldOk K -> forall (M : Mo
     vadd M (msm (fst sc) (interleaveM K M (g_G g) (g_Hv g))) (msm (snd sc) (dyn_of K M (pts_of K M dec mb) ++ g_Gb g ++ [g_H g])) = v0 M.
 Proof. intros K Kok M Mok ofN toN OT enc dec DE. exact (emitted_proof_verifies K Kok M Mok ofN toN OT enc dec DE). Qed.
 Print Assumptions C06_emitted_proof_verifies.
+
+(** ... and with the prover's own error exits inside the model ([prove_full], Model/ProveFull.v: witness guard, then the proof
+    computation during which the transcript refuses identity points and zero challenges): WHENEVER IT RETURNS A PROOF, THE VERIFIER
+    ACCEPTS IT.  The premises "no absorbed point is the identity" and "no challenge is zero" of the theorem above are gone — they are
+    what the prover itself checked; what remains is what the validating constructors guarantee, the typing of u64, the shape of the
+    oracles (one round challenge per halving, nonces as C13 shapes them) and y <> 1, which the code does not check (probability 1/l). *)
+From BP Require Import Model.ProveFull Proofs.ProveFullP.
+Theorem C06_whatever_the_prover_returns_verifies : forall (K : Fld), FldOk K -> forall (M : Mod K), ModOk K M ->
+  forall (ofN : N -> K) (toN : K -> N), (forall x, ofN (toN x) = x) ->
+  forall (enc : M -> N) (dec : N -> M), (forall p, dec (enc p) = p) ->
+  forall (g : gens K M) bits cap (commitments : list M) (values : list N) (promises : list (option N)) (blindings : list (list K)) wT prover_seeded
+         (nn : nonces K) (ch : pchals K) seeded nonce mode (w : K) a p,
+  let m := length values in
+  let T := length (g_Gb g) in
+  prove_full K M toN enc bits cap g commitments promises values blindings wT prover_seeded nn ch = Some p ->
+  1 <= bits <= 64 -> m = 2 ^ a -> m <= cap -> length (g_G g) = bits * cap -> length (g_Hv g) = bits * cap ->
+  1 <= T <= 6 -> (2 * N.of_nat bits * N.of_nat cap < 2 ^ 64)%N ->
+  length promises = m -> length blindings = m -> Forall (fun r => length r = wT) blindings ->
+  Forall (fun v => (v < 2 ^ 64)%N) values ->
+  m * bits = 2 ^ length (pc_es ch) -> length (pc_es ch) < 64 -> fsub K (pc_y ch) (f1 K) <> f0 K ->
+  wf_nonces K T (length (pc_es ch)) nn ->
+  mode <> RecoverOnly ->
+  let mb := honest_member K M toN enc g bits cap values promises blindings nn ch seeded nonce in
+  mb_Venc K mb = map enc commitments /\ mb_proof K mb = wire_of K M toN enc T p /\
+  exists sc,
+    verify_chunk K ofN mode [mb] [w] true = (Ok [mask_of K ofN mode mb], Some sc) /\
+    vadd M (msm (fst sc) (interleaveM K M (g_G g) (g_Hv g))) (msm (snd sc) (dyn_of K M (pts_of K M dec mb) ++ g_Gb g ++ [g_H g])) = v0 M.
+Proof. intros K Kok M Mok ofN toN OT enc dec DE. exact (proof_of_prove_full_verifies K Kok M Mok ofN toN OT enc dec DE). Qed.
+Print Assumptions C06_whatever_the_prover_returns_verifies.
